@@ -4,6 +4,7 @@ import (
 	"fmt"
 	"go/constant"
 	"go/token"
+	"go/types"
 	"math"
 	"strings"
 
@@ -17,7 +18,7 @@ func init() {
 	register(&core.Property{
 		ID:    "C10",
 		Title: "Aggregates, group-by and top-N equal a reference; partials compose",
-		Decides: "the aggregation function tables agree: the functions constructible as Map = as Reduce = the vectorized mapping = the proto enum (minus UNSPECIFIED); partial→wire and wire→partial special-case the same function set (MEAN carries a count) and the vectorized partial writer puts Partial.Count into the count column and Partial.Value into the value column for every numeric kind; " +
+		Decides: "every string component of the measure group-by key enters the hash length-prefixed (different tag tuples cannot feed the same bytes); the aggregation function tables agree: the functions constructible as Map = as Reduce = the vectorized mapping = the proto enum (minus UNSPECIFIED); partial→wire and wire→partial special-case the same function set (MEAN carries a count) and the vectorized partial writer puts Partial.Count into the count column and Partial.Value into the value column for every numeric kind; " +
 			"the identity elements of MIN/MAX are the extreme values of their domain; the per-node query template of the distributed measure plan pushes down group-by/aggregation but never top-N; replica de-duplication precedes the reduce; the top-N heaps order by value in the direction their role requires.; in the vectorized distributed plan a request-derived node Limit does not survive to the exit when the node request aggregates (partials are never limited on the nodes)",
 		NotDecided: "any arithmetic (sums, means, overflow, float association), heap-based top-N contents, equality with a reference implementation.",
 		Technique:  "case-set agreement on the typed syntax tree against the generated proto enum; SSA def-use of wire columns; constant evaluation of identity elements; comparator truth tables",
@@ -210,6 +211,92 @@ func runC10(c *core.Ctx) {
 				} else {
 					r.Hold(rule, construct, r.pos(st), "overwritten by the unbounded constant on every path where the request aggregates")
 				}
+			}
+		}
+		r.Floor(rule, 1)
+	}
+
+	// the group-by key is a hash over the tuple of tag values: every variable-length component (a string) fed to
+	// the hash must be preceded by its own length, otherwise ("ab","c") and ("a","bc") feed the same bytes and
+	// form one group — and the liaison drops the second group's partial as a replica duplicate (F46)
+	{
+		rule := "c10.group-key-self-delimiting"
+		if f := r.fn(rule, "pkg/query/logical/measure", "formatGroupByKey"); f != nil {
+			isHashWrite := func(in ssa.Instruction) (data ssa.Value, ok bool) {
+				cl, isCall := in.(*ssa.Call)
+				if !isCall || len(cl.Call.Args) < 2 {
+					return nil, false
+				}
+				nm := ssax.CalleeName(cl.Common())
+				if !strings.Contains(nm, "xxhash") || !(strings.HasSuffix(nm, ").Write") || strings.HasSuffix(nm, ").WriteString")) {
+					return nil, false
+				}
+				return cl.Call.Args[1], true
+			}
+			isString := func(v ssa.Value) bool {
+				b, ok := v.Type().Underlying().(*types.Basic)
+				return ok && b.Info()&types.IsString != 0
+			}
+			var strOf func(v ssa.Value, d int) ssa.Value
+			strOf = func(v ssa.Value, d int) ssa.Value {
+				if d > 6 || v == nil {
+					return nil
+				}
+				if isString(v) {
+					return v
+				}
+				switch x := v.(type) {
+				case *ssa.Convert:
+					return strOf(x.X, d+1)
+				case *ssa.Slice:
+					return strOf(x.X, d+1)
+				case *ssa.ChangeType:
+					return strOf(x.X, d+1)
+				}
+				return nil
+			}
+			var carriesLenOf func(v, s ssa.Value, d int) bool
+			carriesLenOf = func(v, s ssa.Value, d int) bool {
+				if d > 10 || v == nil {
+					return false
+				}
+				if cl, ok := v.(*ssa.Call); ok {
+					if b, isB := cl.Call.Value.(*ssa.Builtin); isB && b.Name() == "len" && len(cl.Call.Args) == 1 && cl.Call.Args[0] == s {
+						return true
+					}
+				}
+				return anyOperand(v, func(o ssa.Value) bool { return carriesLenOf(o, s, d+1) })
+			}
+			var writes []ssa.Instruction
+			for _, in := range ssax.Find(f, func(in ssa.Instruction) bool { _, ok := isHashWrite(in); return ok }) {
+				writes = append(writes, in)
+			}
+			n := 0
+			for _, w := range writes {
+				data, _ := isHashWrite(w)
+				sv := strOf(data, 0)
+				if sv == nil {
+					continue // fixed-width component (integer bytes, kind marker)
+				}
+				n++
+				construct := fmt.Sprintf("%s: string component #%d is length-prefixed in the hash", ssax.FuncName(f), n)
+				ok := false
+				for _, l := range writes {
+					if l == w || !ssax.Dominates(l, w) {
+						continue
+					}
+					if ld, _ := isHashWrite(l); carriesLenOf(ld, sv, 0) {
+						ok = true
+					}
+				}
+				if ok {
+					r.Hold(rule, construct, r.pos(w), "")
+				} else {
+					r.Violate(rule, construct, r.pos(w), "the string's bytes enter the group-key hash with nothing marking where the component ends: tuples such as (\"ab\",\"c\") and (\"a\",\"bc\") get the same key, are aggregated as one group, and a second group's partial is dropped as a replica duplicate")
+				}
+			}
+			if n == 0 {
+				r.Undecide(rule, ssax.FuncName(f), r.fpos(f), "no string component written to the group-key hash was recognised")
 			}
 		}
 		r.Floor(rule, 1)
